@@ -10,6 +10,7 @@ FAMILY = {
     "C08": "fam_bufsync",
     "C09": "fam_deadline",
     "C20": "fam_xor",
+    "C18": "fam_bridge",
     "C14": "fam_delay",
     "C15": "fam_filters", "C16": "fam_filters",
 }
